@@ -101,7 +101,8 @@ class Coords:
 # ---------------------------------------------------------------------------------------------------
 KINDS = ["gauss_diag", "gauss_unit", "gauss_scaling", "gauss_sandwich", "poisson", "bernoulli", "invgamma",
          "invgamma_field_alpha", "studentt", "categorical", "vcg_real", "vcg_cplx", "sgamma_real", "sgamma_cplx",
-         "scaled_poisson", "model_poisson", "sum_gauss_bernoulli", "hamiltonian_poisson", "scaled_model_vcg_real"]
+         "scaled_poisson", "model_poisson", "sum_gauss_bernoulli", "hamiltonian_poisson", "scaled_model_vcg_real",
+         "cgauss", "cplx_scaling_gauss", "cplx_diag_gauss", "cplx_chain_gauss"]
 
 
 def krng(kind, seed):
@@ -151,6 +152,41 @@ def make(kind, seed, n=3):
         I.params = {"d": d, "icov": ic}
         I.logp = lambda p: float(np.sum(st.norm.logpdf(d, loc=p.asnumpy(), scale=1 / np.sqrt(ic))))
         return finish(ift.GaussianEnergy(data=F(d), inverse_covariance=icov), F(x))
+    if kind == "cgauss":
+        # complex data, real diagonal precision: re and im independent with inverse variance icov each
+        d = rng.normal(size=n) + 1j * rng.normal(size=n)
+        x = rng.normal(size=n) + 1j * rng.normal(size=n)
+        ic = np.exp(rng.normal(size=n))
+        I.params = {"d": d, "icov": ic}
+
+        def logp(p):
+            v, sdev = p.asnumpy(), 1 / np.sqrt(ic)
+            return float(np.sum(st.norm.logpdf(d.real, loc=v.real, scale=sdev)) + np.sum(st.norm.logpdf(d.imag, loc=v.imag, scale=sdev)))
+        I.logp = logp
+        return finish(ift.GaussianEnergy(data=F(d), inverse_covariance=ift.makeOp(F(ic), sampling_dtype=np.complex128)), F(x), np.complex128)
+    if kind in ("cplx_scaling_gauss", "cplx_diag_gauss", "cplx_chain_gauss"):
+        # complex Gaussian energy behind a model with a COMPLEX (complex-linear) Jacobian: the metric has
+        # to be J^dagger M J (dense, over real coordinates (re, im)), positive, and equal to the pull-back
+        base = make("cgauss", seed, n)
+        facs = [2j, -1.5j, 1 + 1j, 0.6 - 0.8j, complex(rng.normal(), rng.normal())]
+        fac = facs[int(rng.integers(0, len(facs)))]
+        cd = rng.normal(size=n) + 1j * rng.normal(size=n)
+        if kind == "cplx_scaling_gauss":
+            model = ift.ScalingOperator(dom, fac)
+        elif kind == "cplx_diag_gauss":
+            model = ift.makeOp(F(cd))
+        else:
+            model = ift.makeOp(F(cd)) @ ift.ScalingOperator(dom, fac)
+        x = rng.normal(size=n) + 1j * rng.normal(size=n)
+        I.params = {"factor": [fac.real, fac.imag], "diag": [cd.real.tolist(), cd.imag.tolist()]}
+        I.logp = lambda p: base.logp(model(p))
+        cc = Coords(dom, np.complex128)
+
+        def em(p):
+            Jg = cc.dense(model, cc)
+            return Jg.T @ metric_dense_of(base.energy, model(p), base.coords) @ Jg
+        I.expected_metric = em
+        return finish(base.energy @ model, F(x), np.complex128)
     if kind == "poisson":
         x = np.exp(rng.normal(size=n))
         d = rng.poisson(x * 2).astype(np.int64)
@@ -293,7 +329,11 @@ def trafo_jac_dense(energy, p, coords):
     import nifty.cl as ift
     dtp, t = energy.get_transformation()
     lin = t(ift.Linearization.make_var(p))
-    tc = Coords(t.target, dtp)
+    # coordinates of the Euclidean target: taken from the dtype of the transformed point (the declared
+    # sampling dtype may be None)
+    tv = lin.val
+    tdt = {k: tv[k].dtype for k in tv.keys()} if isinstance(tv, ift.MultiField) else tv.dtype
+    tc = Coords(t.target, tdt)
     return coords.dense(lin.jac, tc), tc
 
 
@@ -330,6 +370,14 @@ def fisher_exact(kind, seed):
         co = Coords(dom, np.float64)
         fis = sum(w * np.outer(*(2 * [score(mk(x + e / math.sqrt(ic)), F([x]), co)])) for e, w in zip(gh_x, gh_w))
         return metric_dense_of(mk(x), F([x]), co), fis
+    if kind == "cgauss":
+        ic, x = logu(rng, 0.1, 10), complex(rng.normal(), rng.normal())
+        co = Coords(dom, np.complex128)
+        mk = lambda d: ift.GaussianEnergy(data=F(np.array([d])), inverse_covariance=ift.makeOp(F([ic]), sampling_dtype=np.complex128))
+        P = F(np.array([x]))
+        fis = sum(wa * wb * np.outer(*(2 * [score(mk(x + (a + 1j * b) / math.sqrt(ic)), P, co)]))
+                  for a, wa in zip(gh_x, gh_w) for b, wb in zip(gh_x, gh_w))
+        return metric_dense_of(mk(x), P, co), fis
     if kind == "poisson":
         x = logu(rng, 0.2, 6)
         co = Coords(dom, np.float64)
@@ -451,6 +499,9 @@ def run_instance(kind, seed):
     M = metric_dense_of(I.energy, I.x, co)
     if not np.allclose(M, M.T, rtol=1e-10, atol=1e-12):
         fails.append(("metric_symmetric", {"metric": M.tolist()}))
+    ev = np.linalg.eigvalsh((M + M.T) / 2)
+    if ev.min() < -1e-10 * max(1.0, abs(ev.max())):
+        fails.append(("metric_positive", {"eigenvalues": ev.tolist()}))
     if I.exact_pullback and not getattr(I, "is_hamiltonian", False):
         J, _ = trafo_jac_dense(I.energy, I.x, co)
         P = J.T @ J
